@@ -1,13 +1,15 @@
 """C03 — Synchronous receive is a lossless ordered stream that drains before EOF (DESIGN.md §2 C03)."""
-from .. import access
+import copy
+
+from .. import access, locks
 from ..cfg import search, witness_str, elem_dominates
 from ..expr import show, walk, last, field_of, strip_wrappers, strip_casts, short, const_value, access_path
-from ..facts import AnalysisBroken
+from ..facts import AnalysisBroken, Function
 from ..predabs import Vocab, PredAbs, A, Not, And, Or, T, translate, known_when, total
 from ..rules import common
 
 TITLE = "Synchronous receive is a lossless ordered stream that drains before EOF"
-TECHNIQUE = 'custom static analysis over clang-14 CFG facts: must-lockset with RAII aliases, condition-variable discipline rule template, predicate abstraction over buffer/overflow flags'
+TECHNIQUE = 'custom static analysis over clang-14 CFG facts: must-lockset with RAII aliases, condition-variable discipline rule template, predicate abstraction over buffer/overflow flags; calls into helpers of Transport::Impl (member functions, local lambdas, predicate functions) expanded in place before the rules run'
 IMPL = "iora::network::Transport::Impl"
 SRB = IMPL + "::SyncReceiveBuffer"
 SCO = IMPL + "::SyncConnectOp"
@@ -25,19 +27,712 @@ EXPLANATION = (
     "their fields, pending connects, teardown counters) holds Impl::syncMutex; R2 in the engine data callback the read of the mode, "
     "the overflow test and the append are one critical section; R3/R3b the append is bounded by maxSyncReceiveBuffer and never "
     "happens after the first drop (predicate abstraction), and `overflow` is only ever set; R4 in receiveSync every error return "
-    "after the wait (overflow, peer-closed, shutting-down) is reached only with the buffer empty, and the data path copies the "
+    "after the wait (overflow, peer-closed, shutting-down) is reached only with the buffer empty, peer-closed only behind the false "
+    "edge of the overflow test (a dropped chunk is never followed by a clean end-of-stream), and the data path copies the "
     "front min(len,size) bytes and erases exactly that prefix; R5 setReadMode switches to Async only in the critical section that "
     "saw the buffer empty (or a non-flush transition), moves buffered bytes out under the lock and delivers them with no lock held; "
     "R6 the close callback always leaves a closed buffer/tombstone; R7 Disabled/Sync modes never reach the user data callback; "
-    "R8 condition-variable discipline for the three waits.")
+    "R8 condition-variable discipline for the three waits; R9 a receive-buffer entry is erased only once it is closed and drained. "
+    "The four anchors (data / close callbacks, receiveSync, setReadMode) are analysed on copies in which calls to helpers of "
+    "Transport / Transport::Impl are expanded in place; member functions of the private Impl get their entry lockset from their call sites.")
+# exempt from the function-inventory guard (report.py): these rules hold for, or look into, functions they have never seen
+FOLLOWS_HELPERS = {
+    "C03-R1": "universal per-access discipline; a member function of the private Transport::Impl gets its entry lockset from its call sites (_PimplLocks), so a new helper is judged with the locks its callers hold",
+    "C03-R2": "the data callback is analysed with its calls into Transport/Impl helpers expanded in place (expanded())",
+    "C03-R3": "same expansion; the `overflow is only ever set` half looks at every write in the file, wherever it is",
+    "C03-R4": "receiveSync is analysed with its helper calls expanded in place; returns inside helpers count as result sites",
+    "C03-R5": "setReadMode is analysed with its helper calls expanded in place",
+    "C03-R6": "the close callback is analysed with its helper calls expanded in place",
+    "C03-R7": "the data callback is analysed with its helper calls expanded in place",
+    "C03-R8": "universal: every write of a wait-predicate variable, wherever it is, with the inferred entry locksets",
+    "C03-R9": "every erase site in the file is judged, in its own function and — for a helper — in every caller it is expanded into",
+}
 NOT_DECIDED = ["byte-exact equality of the delivered stream for all chunkings (R4 decides the shape of the copy/erase, not arithmetic over every size)",
                "ordering of a flush against bytes that arrive during the user callback beyond the structural half (R5)",
                "timeouts"]
 ASSUMPTIONS = ["ParkGuard/FlushGuard constructor preconditions (lock held) are discharged by C05-R4, assumed here"]
 
 
+class _PimplLocks(locks.LockAnalysis):
+    """Transport::Impl is Transport's private implementation struct: declared in Transport's private section, defined only in
+    transport_impl.hpp, reachable only through the private member Transport::_impl.  Its member functions (and those of the
+    classes nested in it) are `public` only because it is a struct; nobody outside this file can name them.  So a non-virtual
+    member function of Impl whose address is never taken has its entry lockset from its call sites (meet over all of them),
+    exactly like a private method — a helper extracted into Impl and called under syncMutex is analysed with syncMutex held,
+    one that has a single lock-free call site is not."""
+
+    def _pimpl_internal(self):
+        if not hasattr(self, "_pimpl"):
+            fb = self.fb
+            rec = fb.record(IMPL)
+            if not rec["file"].endswith(FILE):
+                raise AnalysisBroken("Transport::Impl is no longer defined in %s" % FILE)
+            holders = [(r["name"], fld["n"]) for rs in fb.records.values() for r in rs for fld in r.get("fields", [])
+                       if "iora::network::Transport::Impl>" in fld.get("t", "") or fld.get("t", "").startswith(IMPL + " ")]
+            if set(holders) - {("iora::network::Transport", "_impl")}:
+                raise AnalysisBroken("Transport::Impl is held by %s, not only by Transport::_impl: it is no longer a private implementation" % holders[:3])
+            taken = {n["n"] for f in fb.functions if f.ok for n in f.nodes.values() if n.get("k") in ("fref", "gref") and isinstance(n.get("n"), str)}
+            # … and free functions of the file that take the Impl (or a class nested in it) as a parameter: nobody else has one
+            self._pimpl = {f.sig for f in fb.functions if f.ok and f.name not in taken and self.cg.callers.get(f.name) and not f.raw.get("virtual") and
+                           ((f.kind == "method" and (f.cls == IMPL or (f.cls or "").startswith(IMPL + "::"))) or
+                            (f.kind == "function" and f.file.endswith(FILE) and any(IMPL in p_.get("t", "") for p_ in f.params)))}
+        return self._pimpl
+
+    def _is_internal(self, f):
+        if super()._is_internal(f):
+            return True
+        return f.name not in self.entry_override and f.sig in self._pimpl_internal()
+
+    def adopt(self, syn, orig):
+        """a synthetic (inlined) copy of `orig` starts with orig's entry lockset"""
+        self._entry[syn.sig] = self._entry.get(orig.sig)
+        return self
+
+
 def _la(ctx):
-    return ctx.locks(aliases=ALIASES, entry_override=ENTRY, key="transport")
+    # same cache slot as ctx.locks(key="transport") (C02/C04/C05 reach the analysis through this function)
+    k = (ctx.config, "transport")
+    if k not in ctx._la:
+        ctx._la[k] = _PimplLocks(ctx.fb(), aliases=ALIASES, entry_override=ENTRY)
+    return ctx._la[k]
+
+
+# ------------------------------------------------------------------ following calls into helpers of the same class
+#
+# The clauses below are stated over four anchors (the engine data / close callbacks, receiveSync, setReadMode).  A behaviour-
+# preserving edit may move any part of them into a helper of Transport / Transport::Impl.  Instead of teaching every clause
+# to look into callees, the anchor is analysed on a *copy with those calls expanded in place*: the callee's CFG is spliced in
+# at the call element, `this` becomes the receiver expression of the call, a parameter whose argument is a plain access path
+# (or constant) and which the callee does not overwrite is replaced by that argument, any other parameter becomes a local
+# initialised with the argument, `return x` becomes an `iret` node (k="iret", "of" = id of the call node) that falls through
+# to the rest of the caller's block.  A helper that consists of one effect-free `return <expr>` is substituted as an
+# expression (`isReclaimable(*it->second)` reads as the conjunction it returns).  Everything the analyses use (lock state,
+# dominance, path predicates, field paths) then sees the code as if it had never been moved.  Nothing is keyed on a helper's
+# name: which calls are expanded is decided by where the callee is defined and by its shape.
+
+_IMPURE_STD = {"swap", "clear", "pop_front", "pop_back", "release", "reset", "store", "exchange", "fetch_add", "fetch_sub", "compare_exchange_strong",
+               "compare_exchange_weak", "notify_one", "notify_all", "unlock", "operator++", "operator--", "operator[]", "move", "forward"}
+
+
+def _own_helper(fb, name):
+    """the single definition of a non-virtual named function defined in transport_impl.hpp that belongs to Transport, to
+    Transport::Impl or a class nested in it, or is a free function of that file; None for anything else"""
+    gs = fb.by_name.get(name) or []
+    if len({(g.file, g.line) for g in gs}) != 1:
+        return None
+    g = gs[0]
+    if not g.ok or g.kind not in ("method", "function") or not g.file.endswith(FILE) or g.raw.get("virtual") or g.raw.get("trys"):
+        return None
+    if g.kind == "method" and not (g.cls == IMPL or (g.cls or "").startswith(IMPL + "::") or g.cls == "iora::network::Transport"):
+        return None
+    return g
+
+
+def _raw_walk(x):
+    """every dict below x (expression nodes, decl-variable entries, capture entries)"""
+    st = [x]
+    while st:
+        y = st.pop()
+        if isinstance(y, dict):
+            yield y
+            st.extend(y.values())
+        elif isinstance(y, list):
+            st.extend(y)
+
+
+def _raw_trees(raw):
+    for b in raw["blocks"]:
+        for re_ in b["elems"]:
+            if "root" in re_:
+                yield re_["root"]
+            if re_.get("k") == "init" and isinstance(re_.get("v"), dict):
+                yield re_["v"]
+        if b.get("label") and isinstance(b["label"].get("v"), dict):
+            yield b["label"]["v"]
+
+
+def _raw_max(raw):
+    """(largest node id, largest block id, largest declaration id) used anywhere in the record"""
+    mi = md = 0
+    for t in _raw_trees(raw):
+        for y in _raw_walk(t):
+            if isinstance(y.get("id"), int):
+                mi = max(mi, y["id"])
+            if isinstance(y.get("d"), int):
+                md = max(md, y["d"])
+    for b in raw["blocks"]:
+        for re_ in b["elems"]:
+            if isinstance(re_.get("e"), int):
+                mi = max(mi, re_["e"])
+            if isinstance(re_.get("d"), int):
+                md = max(md, re_["d"])
+    for p_ in raw.get("params", []):
+        if isinstance(p_.get("d"), int):
+            md = max(md, p_["d"])
+    return mi, max(b["id"] for b in raw["blocks"]), md
+
+
+def _clone(n, nid, fix):
+    """deep copy of a tree: ids through nid(old), every copied dict through fix(copy) (which may return a replacement)"""
+    if isinstance(n, list):
+        return [_clone(x, nid, fix) for x in n]
+    if not isinstance(n, dict):
+        return n
+    m = {k: _clone(v, nid, fix) for k, v in n.items()}
+    if isinstance(m.get("id"), int):
+        m["id"] = nid(m["id"])
+    return fix(m)
+
+
+def _arg_value(a):
+    """the expression a parameter stands for: copy construction of a by-value argument and casts looked through"""
+    while isinstance(a, dict):
+        if a.get("k") == "cast" and isinstance(a.get("v"), dict):
+            a = a["v"]
+        elif a.get("k") == "ctor" and a.get("copy") and len([x for x in a.get("args", []) if not x.get("def")]) == 1:
+            a = [x for x in a["args"] if not x.get("def")][0]
+        else:
+            break
+    return a
+
+
+def _pure_expr(n):
+    """no assignment, increment or call with an effect anywhere in the expression"""
+    for x in walk(n):
+        k = x.get("k")
+        if k == "bin" and x["op"].endswith("=") and x["op"] not in ("==", "!=", "<=", ">="):
+            return False
+        if k == "un" and ("++" in x["op"] or "--" in x["op"]):
+            return False
+        if k in ("call", "mcall", "opcall"):
+            c = x.get("callee") or ""
+            from ..cfg import NOTHROW_STD
+            if not c.startswith("std::") or last(c) not in NOTHROW_STD or last(c) in _IMPURE_STD:
+                return False
+        if k in ("ctor", "new", "delete", "lambda", "throw"):
+            return False
+    return True
+
+
+class _Expander:
+    def __init__(self, fb):
+        self.fb = fb
+        self.done = {}        # callee name -> expanded raw record
+        self.writes = {}      # callee name -> set of parameter indices the callee may overwrite
+
+    def _param_written(self, g):
+        if g.name not in self.writes:
+            ds = {p_["d"]: i for i, p_ in enumerate(g.params) if "d" in p_}
+            w = set()
+            for n in g.nodes.values():
+                if n.get("k") == "var" and n.get("d") in ds and access.classify(g, n) in ("write", "rw", "addr"):
+                    w.add(ds[n["d"]])
+            self.writes[g.name] = w
+        return self.writes[g.name]
+
+    def raw_of(self, f, stack=()):
+        """raw record of f with every call to an own helper expanded (helpers first, so one level of splicing is enough)"""
+        if f.kind != "lambda" and f.name in self.done:
+            return self.done[f.name]
+        raw = copy.deepcopy(f.raw)
+        expanded = []
+        for rounds in range(40):
+            site = self._next_site(raw, stack + (f.name,))
+            if site is None:
+                break
+            b, i, node, g, lam = site
+            expanded.append(g.name)
+            if not self._as_expression(raw, node, g, lam, stack + (f.name,)):
+                self._splice(raw, b, i, node, g, lam, stack + (f.name,))
+        else:
+            raise AnalysisBroken("%s: more than 40 helper calls to expand" % short(f.name))
+        raw["_expanded"] = expanded + [x for g in set(expanded) for x in self.done.get(g, {}).get("_expanded", [])]
+        if f.kind != "lambda":
+            self.done[f.name] = raw
+        return raw
+
+    def _next_site(self, raw, stack):
+        ids = {}
+        for t in _raw_trees(raw):
+            for y in _raw_walk(t):
+                if isinstance(y.get("id"), int):
+                    ids[y["id"]] = y
+        for b in raw["blocks"]:
+            for i, re_ in enumerate(b["elems"]):
+                if not isinstance(re_.get("e"), int) or re_.get("k") == "dtor_delete":
+                    continue      # implicit destructor / initialiser elements
+                n = ids.get(re_["e"])
+                if n is None or n.get("k") not in ("call", "mcall", "opcall") or n.get("inl") or n.get("virt"):
+                    continue
+                g, lam = (_own_helper(self.fb, n.get("callee") or ""), None) if n["k"] != "opcall" else self._local_lambda(raw, n)
+                if g is None:
+                    continue
+                if g.name in stack:
+                    n["inl"] = "recursive"
+                    continue
+                if len(stack) > 4:
+                    raise AnalysisBroken("helper calls nested deeper than 4 below %s" % short(stack[0]))
+                return b, i, n, g, lam
+        return None
+
+    def _local_lambda(self, raw, n):
+        """(Function, lambda node) when n calls a lambda that the function being expanded keeps in a local variable — the other
+        way of writing a helper — and whose captures can be read as the captured variables themselves: by reference, `this`,
+        or a copy of a variable the function never assigns again.  (None, None) otherwise."""
+        if n.get("op") != "()" or "::$lambda" not in (n.get("callee") or "") or not n.get("args"):
+            return None, None
+        v = strip_casts(n["args"][0])
+        if v is None or v.get("k") != "var":
+            return None, None
+        lam, assigned = None, set()
+        for t in _raw_trees(raw):
+            for y in _raw_walk(t):
+                if "k" not in y and y.get("d") == v.get("d") and isinstance(y.get("init"), dict):
+                    i = strip_casts(y["init"])
+                    if i is not None and i.get("k") == "lambda" and i.get("fn") == n["callee"]:
+                        lam = i
+                k = y.get("k")
+                tgt = None
+                if k == "bin" and y.get("op", "").endswith("=") and y["op"] not in ("==", "!=", "<=", ">="):
+                    tgt = y.get("lhs")
+                elif k == "opcall" and (y.get("op") or "").endswith("=") and y["op"] not in ("==", "!=", "<=", ">=") and y.get("args"):
+                    tgt = y["args"][0]
+                elif k == "un" and ("++" in y.get("op", "") or "--" in y.get("op", "")):
+                    tgt = y.get("v")
+                tgt = strip_casts(tgt) if isinstance(tgt, dict) else None
+                if tgt is not None and tgt.get("k") == "var":
+                    assigned.add(tgt.get("d"))
+        gs = self.fb.by_name.get(n["callee"]) or []
+        if lam is None or len({(g.file, g.line) for g in gs}) != 1:
+            return None, None
+        g = gs[0]
+        if not g.ok or g.kind != "lambda" or not g.file.endswith(FILE) or g.raw.get("trys"):
+            return None, None
+        for c in lam.get("caps", []):
+            if c.get("n") != "this" and c.get("by") != "ref" and c.get("d") in assigned:
+                return None, None
+        return g, lam
+
+    # ---- parameter / receiver binding shared by both forms of expansion
+    def _binding(self, node, g, lam, fresh):
+        """(substitution: param decl id -> argument expression to copy in its place, bound: [(param, argument)] that need a
+        local, receiver expression standing for `this`)"""
+        args = list(node.get("args", []))
+        recv = None
+        subst, bound = {}, []
+        if node.get("k") == "mcall":
+            o = node.get("obj")
+            if o is not None:
+                recv = o if node.get("arrow") or o.get("k") == "this" else {"id": -1, "k": "un", "op": "&", "v": o}
+        elif lam is not None:
+            # a local lambda: its `this` is the enclosing function's, a captured variable is the variable
+            args = args[1:]
+            recv = {"id": -1, "k": "this"}
+            caps = {c.get("n"): c for c in lam.get("caps", [])}
+            for x in g.nodes.values():
+                if x.get("k") == "var" and x.get("cap") and isinstance(x.get("d"), int) and x["d"] not in subst:
+                    c = caps.get(x["n"])
+                    if c is None or not isinstance(c.get("d"), int):
+                        raise AnalysisBroken("%s: captured variable `%s` of a local lambda not found in its capture list" % (short(g.name), x.get("n")))
+                    subst[x["d"]] = {"id": -1, "k": "var", "n": x["n"], "d": c["d"], "t": x.get("t", "")}
+        written = self._param_written(g)
+        for i, p_ in enumerate(g.params):
+            if i >= len(args) or "d" not in p_:
+                continue
+            a = _arg_value(args[i])
+            isref = p_.get("t", "").rstrip().endswith("&")
+            plain = access_path(a) is not None or a.get("k") in ("int", "bool", "enum", "null", "char", "str", "float", "this")
+            if plain and (isref or i not in written):
+                subst[p_["d"]] = a
+            else:
+                bound.append((p_, args[i]))
+        return subst, bound, recv
+
+    def _fixer(self, g, subst, recv, doff, fresh, callid, ioff=0):
+        pds = {p_["d"] for p_ in g.params if "d" in p_}
+
+        def plain_copy(x):
+            return _clone(x, lambda old: fresh(), lambda m: m)
+
+        def fix(m):
+            k = m.get("k")
+            if k == "this":
+                if recv is None:
+                    raise AnalysisBroken("%s uses `this` but is called without a receiver" % short(g.name))
+                return plain_copy(recv)
+            if k == "var" and m.get("d") in subst:
+                return plain_copy(subst[m["d"]])
+            if isinstance(m.get("d"), int) and ("k" not in m or k in ("var",)):
+                if m["d"] in pds:
+                    m.pop("parm", None)      # no longer a parameter of the function the copy lives in
+                m["d"] += doff
+            if k == "iret" and isinstance(m.get("of"), int):
+                m["of"] += ioff              # a return of a helper's helper: its call node was renumbered with the rest
+            if ioff and isinstance(m.get("id"), int) and "k" in m and "org" not in m:
+                m["org"] = [g.name, m["id"] - ioff]      # where the node really lives (function, id there)
+            if k == "ret":
+                m["k"] = "iret"
+                m["of"] = callid
+            return m
+        return fix
+
+    def _as_expression(self, raw, node, g, lam, stack):
+        """a helper that is one effect-free `return <expr>`: the call node becomes that expression"""
+        graw = self.raw_of(g, stack)
+        roots = [re_["root"] for b in graw["blocks"] for re_ in b["elems"] if "root" in re_]
+        others = [re_ for b in graw["blocks"] for re_ in b["elems"] if "e" not in re_]
+        if len(roots) != 1 or others or roots[0].get("k") != "ret" or not isinstance(roots[0].get("v"), dict) or not _pure_expr(roots[0]["v"]):
+            return False
+        mi, mb, md = _raw_max(raw)
+        ctr = [mi]
+
+        def fresh():
+            ctr[0] += 1
+            return ctr[0]
+        subst, bound, recv = self._binding(node, g, lam, fresh)
+        if bound:
+            return False
+        expr = _clone(roots[0]["v"], lambda old: fresh(), self._fixer(g, subst, recv, md + 1, fresh, node["id"]))
+        keep = {"id": node["id"], "l": node.get("l"), "inl": g.name, "was": node.get("k")}
+        node.clear()
+        node.update(expr)
+        node.update(keep)
+        return True
+
+    def _splice(self, raw, b, i, node, g, lam, stack):
+        graw = self.raw_of(g, stack)
+        mi, mb, md = _raw_max(raw)
+        gmi, gmb, gmd = _raw_max(graw)
+        ioff, boff, doff = mi + 1, mb + 1, md + 1
+        ctr = [ioff + gmi + 1]
+
+        def fresh():
+            ctr[0] += 1
+            return ctr[0]
+        subst, bound, recv = self._binding(node, g, lam, fresh)
+        fix = self._fixer(g, subst, recv, doff, fresh, node["id"], ioff)
+        # lexical try / catch context of the call: the expanded statements run inside it
+        tmp = Function(copy.deepcopy({k: v for k, v in raw.items() if k != "_expanded"}))
+        ce = tmp.elem_of.get(node["id"])
+        ctx_try, ctx_catch = (ce.try_id, ce.catch_id) if ce is not None else (0, 0)
+        cont = {"id": boff + gmb + 1, "elems": b["elems"][i:], "succs": b["succs"]}
+        for k in ("term", "noreturn"):
+            if k in b:
+                cont[k] = b.pop(k)
+        b["elems"] = b["elems"][:i]
+        b["succs"] = [graw["entry"] + boff]
+        newblocks = []
+        for gb in graw["blocks"]:
+            nb = {"id": gb["id"] + boff, "elems": [], "succs": [(x + boff) if isinstance(x, int) else x for x in gb["succs"]]}
+            for k in ("term", "label", "noreturn"):
+                if k in gb:
+                    nb[k] = copy.deepcopy(gb[k])
+            if "term" in nb:
+                for k in ("cond", "fullcond"):
+                    if isinstance(nb["term"].get(k), int):
+                        nb["term"][k] += ioff
+            if nb.get("label") and isinstance(nb["label"].get("v"), dict):
+                nb["label"]["v"] = _clone(nb["label"]["v"], lambda old: old + ioff, fix)
+            for re_ in gb["elems"]:
+                ne = {k: v for k, v in re_.items() if k != "root"}
+                if isinstance(ne.get("e"), int):
+                    ne["e"] += ioff
+                if "e" not in re_ and isinstance(ne.get("d"), int):
+                    ne["d"] += doff          # implicit destructor of a callee local
+                if "root" in re_:
+                    ne["root"] = _clone(re_["root"], lambda old: old + ioff, fix)
+                    # a substituted node keeps no id of the callee: the element must still name its root
+                    if ne["root"].get("id") != ne.get("e"):
+                        ne["root"] = dict(ne["root"], id=ne["e"])
+                    if ctx_try and not ne.get("try"):
+                        ne["try"] = ctx_try
+                    if ctx_catch and not ne.get("catch"):
+                        ne["catch"] = ctx_catch
+                nb["elems"].append(ne)
+            if gb["id"] == graw["exit"]:
+                nb["succs"] = [cont["id"]]
+            newblocks.append(nb)
+        # parameters that could not be replaced by their argument: locals initialised at the head of the expansion
+        if bound:
+            ent = [nb for nb in newblocks if nb["id"] == graw["entry"] + boff][0]
+            decls = []
+            for (p_, a) in bound:
+                did = fresh()
+                decls.append({"e": did, "root": {"id": did, "k": "decl", "l": node.get("l"), "vars": [
+                    {"n": p_["n"], "d": p_["d"] + doff, "t": p_["t"], "init": _clone(a, lambda old: fresh(), lambda m: m)}]}})
+                if ctx_try:
+                    decls[-1]["try"] = ctx_try
+            ent["elems"] = decls + ent["elems"]
+        node["inl"] = g.name
+        raw["blocks"].extend(newblocks + [cont])
+        # elements of sub-expressions that were replaced (parameter uses) no longer exist in any tree
+        have = set()
+        for t in _raw_trees(raw):
+            for y in _raw_walk(t):
+                if isinstance(y.get("id"), int):
+                    have.add(y["id"])
+        for bb in raw["blocks"]:
+            bb["elems"] = [re_ for re_ in bb["elems"] if not isinstance(re_.get("e"), int) or re_["e"] in have or "root" in re_]
+
+
+def expanded(ctx, f):
+    """f, or — when f calls helpers of its own class — a copy of f with those calls expanded in place (see above)."""
+    fb = ctx.fb()
+    cache = fb.__dict__.setdefault("_c03_expanded", {})
+    key = (f.sig, f.file, f.line)
+    if key in cache:
+        return cache[key]
+    ex = fb.__dict__.setdefault("_c03_expander", None) or _Expander(fb)
+    fb.__dict__["_c03_expander"] = ex
+    raw = ex.raw_of(f)
+    if not raw.get("_expanded"):
+        cache[key] = f
+        return f
+    g = Function({k: v for k, v in raw.items() if k != "_expanded"})
+    if not g.ok:
+        raise AnalysisBroken("could not rebuild %s with its helpers expanded" % short(f.name))
+    g.sig = f.sig + "#expanded"
+    g.expanded_from, g.expanded_helpers = f, sorted(set(raw["_expanded"]))
+    g.enclosing = f.enclosing
+    if hasattr(f, "lambda_node"):
+        g.lambda_node = f.lambda_node
+    for n in g.nodes.values():
+        if n.get("k") == "lambda":
+            for lf in fb.by_name.get(n["fn"], []):
+                if lf.file == f.file:
+                    g.lambdas.append((n, lf))
+    _la(ctx).adopt(g, f)
+    cache[key] = g
+    return g
+
+
+def anchor(ctx, f):
+    """expanded(f) for a rule that reads f as a whole (and reports what is missing from it).  If f still calls code of this
+    file that could not be expanded (recursive, virtual, contains try/catch, a lambda whose captures cannot be read as the
+    variables) and that code — or anything it calls — touches the sync-receive state or invokes a std::function, the rule
+    would be looking at a function with a hole in it: that is a refusal, not a verdict."""
+    fb, cg = ctx.fb(), ctx.cg()
+    g = expanded(ctx, f)
+    watched = set(GUARDED) | {SRB + "::cv"}
+    for n in g.nodes.values():
+        if n.get("k") not in ("call", "mcall", "opcall") or (n.get("inl") and n["inl"] != "recursive") or n.get("was"):
+            continue
+        hs = [h for h in fb.by_name.get(n.get("callee") or "", []) if h.ok and h.file.endswith(FILE) and h.kind in ("method", "function", "lambda")]
+        if not hs:
+            continue
+        sigs = cg.reach(hs)
+        for h in fb.functions:
+            if h.sig in sigs and h.ok and h.file.endswith(FILE):
+                if any((x.get("k") == "member" and x.get("n") in watched) or (x.get("k") == "opcall" and x.get("callee") == "std::function::operator()") for x in h.nodes.values()):
+                    raise AnalysisBroken("%s calls %s, which works on the sync-receive state (in %s) but cannot be expanded in place (recursive, virtual, try/catch or "
+                                         "by-copy captures): the rule cannot read the function as a whole" % (short(f.name), short(hs[0].name), short(h.name)))
+    return g
+
+
+# ------------------------------------------------------------------ small dataflow helpers (no local-variable names)
+
+def _var_writes(f, d):
+    """[(element, value expression | None)] for everything that gives the variable with declaration id d a value"""
+    out = []
+    for e in f.stmts():
+        n = e.node
+        k = n.get("k")
+        if k == "decl":
+            for v in n["vars"]:
+                if v.get("d") == d:
+                    out.append((e, v.get("init")))
+        elif k in ("bin", "opcall") and (n.get("op") or "").endswith("=") and n.get("op") not in ("==", "!=", "<=", ">="):
+            if k == "opcall" and len(n.get("args", [])) != 2:
+                continue
+            lhs, rhs = (n["lhs"], n["rhs"]) if k == "bin" else (n["args"][0], n["args"][1])
+            l = strip_casts(lhs)
+            if l is not None and l.get("k") == "var" and l.get("d") == d:
+                out.append((e, rhs if n["op"] == "=" else None))
+        elif k == "un" and ("++" in n["op"] or "--" in n["op"]):
+            l = strip_casts(n["v"])
+            if l is not None and l.get("k") == "var" and l.get("d") == d:
+                out.append((e, None))
+    return out
+
+
+def _reaching(f, at, d):
+    """(element, value) of the one write of variable d that reaches element `at` on every path, or None"""
+    ws = _var_writes(f, d)
+    dom = [(e, v) for (e, v) in ws if e is not at and elem_dominates(f, e, at, eh=False)]
+    if not dom:
+        return None
+    best = dom[0]
+    for c in dom[1:]:
+        if elem_dominates(f, best[0], c[0], eh=False):
+            best = c
+    for (e, v) in ws:
+        if e is best[0] or e is at:
+            continue
+        # another write between the chosen one and the use
+        if search(f, best[0], lambda x, e=e: x is e, stop=lambda x: x is at, eh=False) is not None and search(f, e, lambda x: x is at, eh=False) is not None:
+            return None
+    return best
+
+
+def _stands_for(f, at, node, depth=8):
+    """the expressions `node` stands for where it is evaluated (element `at`), outermost first: a local is followed to the one
+    value that reaches it, a call that was expanded in place to the one value it returns, copies and casts are looked through"""
+    return [n for (n, _at) in _stands_for_at(f, at, node, depth)]
+
+
+def _stands_for_at(f, at, node, depth=8):
+    """_stands_for with the element at which each expression of the chain is evaluated"""
+    chain = []
+    while depth and isinstance(node, dict):
+        depth -= 1
+        n = _arg_value(strip_wrappers(node))
+        if n is None:
+            break
+        chain.append((n, at))
+        # BufferView{v.data(), v.size()}: a view of all of v is v
+        if n.get("k") in ("ctor", "ilist") and "BufferView" in (n.get("t", "") + n.get("cls", "")):
+            parts = [_payload_part(a) for a in (n.get("args") or n.get("vals") or []) if not a.get("def")]
+            if len(parts) == 2 and parts[0] and parts[1] and parts[0][0] == "data" and parts[1][0] == "size" and parts[0][1] == parts[1][1]:
+                node = _arg_value(strip_casts([a for a in (n.get("args") or n.get("vals")) if not a.get("def")][0])["obj"])
+                continue
+        if n.get("k") == "var" and isinstance(n.get("d"), int):
+            rv = _reaching(f, at, n["d"])
+            if rv is None or rv[1] is None:
+                break
+            at, node = rv
+        elif n.get("k") in ("call", "mcall", "opcall") and n.get("inl"):
+            rets = [x for x in f.nodes.values() if x.get("k") == "iret" and x.get("of") == n["id"]]
+            if len(rets) != 1 or not isinstance(rets[0].get("v"), dict):
+                break
+            at, node = f.elem_for(rets[0]), rets[0]["v"]
+        else:
+            break
+    return chain
+
+
+def _cannot_tell(f, chain):
+    """the chain of _stands_for ends in something the rule cannot read: a local that gets its value in several places, or the
+    result of a function that is not expanded — 'cannot tell' is a refusal, not a report"""
+    if not chain:
+        return False
+    end = chain[-1]
+    return (end.get("k") == "var" and not _own_param(f, end)) or \
+        (end.get("k") in ("call", "mcall", "opcall") and not end.get("inl") and not (end.get("callee") or "").startswith("std::"))
+
+
+def _is_caller_capacity(f, at, q):
+    """q (evaluated at element `at`) stands for an integer parameter of f itself"""
+    return any(_own_param(f, y) and "long" in (y.get("t") or "") for y in _stands_for(f, at, q))
+
+
+def _is_size_of(n, field):
+    n = strip_casts(n)
+    return n is not None and n.get("k") == "mcall" and last(n.get("callee", "")) == "size" and field_of(n.get("obj")) == field
+
+
+def _iter_of(n):
+    """(method, field) when n is `<field>.begin()/end()/cbegin()/cend()` (iterator conversions looked through), and the offset
+    expression when it is `<that> + k`; (None, None, None) otherwise"""
+    n = strip_casts(strip_wrappers(n))
+    while n is not None and n.get("k") == "ctor" and len([a for a in n.get("args", []) if not a.get("def")]) == 1:
+        n = strip_casts(strip_wrappers([a for a in n["args"] if not a.get("def")][0]))
+    if n is None:
+        return None, None, None
+    if n.get("k") == "mcall" and last(n.get("callee", "")) in ("begin", "end", "cbegin", "cend") and not n.get("args"):
+        return last(n["callee"]).lstrip("c"), field_of(n.get("obj")), None
+    if n.get("k") == "call" and n.get("callee") == "std::next" and len([a for a in n["args"] if not a.get("def")]) == 2:
+        m, fld, off = _iter_of(n["args"][0])
+        return (m, fld, strip_casts(n["args"][1])) if m is not None and off is None else (None, None, None)
+    if n.get("k") in ("bin", "opcall") and n.get("op") == "+" and (n.get("k") == "bin" or len(n.get("args", [])) == 2):
+        a, b = (n["lhs"], n["rhs"]) if n.get("k") == "bin" else (n["args"][0], n["args"][1])
+        m, fld, off = _iter_of(a)
+        if m is not None and off is None:
+            return m, fld, strip_casts(b)
+        m, fld, off = _iter_of(b)
+        if m is not None and off is None:
+            return m, fld, strip_casts(a)
+    return None, None, None
+
+
+def _empty_test(n, field):
+    """True when n holds exactly if <field> is empty, False when exactly if it is not, None otherwise:
+    `f.empty()`, `f.size() == 0`, `f.size() != 0`, `f.size() > 0`, `f.size() >= 1`, `f.size() < 1` (either way round)"""
+    n = strip_casts(n)
+    if n is None:
+        return None
+    if n.get("k") == "mcall" and last(n.get("callee", "")) == "empty" and field_of(n.get("obj")) == field:
+        return True
+    co = common.cmp_oriented(n, lambda x: const_value(x) is not None)
+    if co and _is_size_of(co[1], field):
+        op, c = co[0], const_value(co[2])
+        if (op, c) in (("==", 0), ("<", 1), ("<=", 0)):
+            return True
+        if (op, c) in (("!=", 0), (">", 0), (">=", 1)):
+            return False
+    return None
+
+
+def _count_test(n, field):
+    """True when n holds exactly if the map <field> has NO entry for the key asked, False when exactly if it has one
+    (`m.count(k) == 0`, `m.count(k) != 0`, `m.count(k) > 0`, bare `m.count(k)` is handled by the caller's `!`), None otherwise"""
+    n = strip_casts(n)
+    if n is None:
+        return None
+
+    def is_count(x):
+        x = strip_casts(x)
+        return x is not None and x.get("k") == "mcall" and last(x.get("callee", "")) == "count" and field_of(x.get("obj")) == field
+    if is_count(n):
+        return False
+    co = common.cmp_oriented(n, lambda x: const_value(x) is not None)
+    if co and is_count(co[1]):
+        op, c = co[0], const_value(co[2])
+        if (op, c) in (("==", 0), ("<", 1), ("<=", 0)):
+            return True
+        if (op, c) in (("!=", 0), (">", 0), (">=", 1)):
+            return False
+    return None
+
+
+def _min_of(n):
+    """(x, y) when n computes min(x, y): std::min(x, y), or `x < y ? x : y` in any of its spellings; None otherwise"""
+    n = strip_casts(strip_wrappers(n))
+    if n is None:
+        return None
+    if n.get("k") == "call" and n.get("callee") == "std::min" and len(n["args"]) >= 2:
+        return strip_casts(strip_wrappers(n["args"][0])), strip_casts(strip_wrappers(n["args"][1]))
+    if n.get("k") == "cond":
+        cp = common.cmp_parts(strip_casts(n["c"]))
+        if cp and cp[0] in ("<", "<=", ">", ">="):
+            a, b, t, f_ = (show(strip_casts(x)) for x in (cp[1], cp[2], n["t"], n["f"]))
+            small_first = cp[0] in ("<", "<=")
+            if (t, f_) == ((a, b) if small_first else (b, a)):
+                return strip_casts(cp[1]), strip_casts(cp[2])
+    return None
+
+
+def _own_param(f, x):
+    """x is a use of one of f's own parameters (not of a helper's parameter that came in by expansion, not a capture)"""
+    return isinstance(x, dict) and x.get("k") == "var" and isinstance(x.get("d"), int) and x["d"] in {p_.get("d") for p_ in f.params} and not x.get("cap")
+
+
+def _is_readmode(t):
+    t = (t or "").replace("const ", "").replace("&", "").strip()
+    return t == "iora::network::ReadMode"
+
+
+def _lock_released(e):
+    """the element ends a critical section: destructor of an RAII lock, explicit unlock, or a condition-variable wait"""
+    if e.kind == "dtor":
+        return bool(locks.LOCK_TYPES.match(e.raw.get("t", "")))
+    if e.kind != "stmt":
+        return False
+    n = e.node
+    if n.get("k") != "mcall":
+        return False
+    c = n.get("callee", "")
+    return c in ("std::unique_lock::unlock", "std::shared_lock::unlock") or c in locks.MUTEX_UNLOCK or \
+        (c.startswith("std::condition_variable") and last(c) in common.CV_WAIT)
 
 
 def lambdas(ctx):
@@ -65,15 +760,28 @@ def r1(ctx, r):
     r.floor(60, "access sites of syncMutex-guarded state")
 
 
+APPENDERS = ("insert", "append", "push_back", "emplace_back", "assign", "resize")
+
+
+def _ondata(ctx):
+    """the engine data callback, with calls into helpers of Transport::Impl expanded in place"""
+    return anchor(ctx, lambdas(ctx)["onData"])
+
+
 def r2(ctx, r):
     la = _la(ctx)
-    od = lambdas(ctx)["onData"]
+    od = _ondata(ctx)
     reads = common.member_calls_on(od, IMPL + "::readModes")
-    ins = common.member_calls_on(od, SRB + "::data", ("insert", "append", "push_back", "emplace_back", "assign", "resize"))
+    ins = common.member_calls_on(od, SRB + "::data", APPENDERS)
     r.instance(len(ins))
     if not reads:
         raise AnalysisBroken("onData lambda no longer reads readModes")
     if not ins:
+        # the buffer handed to an algorithm / inserter (std::copy(..., back_inserter(buf->data))): an append the rule cannot follow
+        handed = [x for x in od.nodes.values() if x.get("k") in ("call", "ctor") and not x.get("inl") and
+                  any(field_of(strip_wrappers(a)) == SRB + "::data" for a in x.get("args", []) if isinstance(a, dict))]
+        if handed:
+            raise AnalysisBroken("onData: the sync receive buffer is filled through `%s`, a form of append the rule does not follow" % show(handed[0])[:60])
         r.fail(od, None, "no append", "the data callback no longer appends arriving bytes to the sync receive buffer")
         return
     tests = [e for e in od.stmts() if e.node.get("k") == "bin" and any(x.get("k") == "member" and x["n"].endswith("::maxSyncReceiveBuffer") for x in walk(e.node))]
@@ -88,9 +796,94 @@ def r2(ctx, r):
                      okdesc="onData: capacity test and append in one section")
 
 
+def _comes_from(f, v, field, depth=3):
+    """the value expression v reads `field`, directly or through locals whose values do (iterator of a find, copies)"""
+    if not isinstance(v, dict):
+        return False
+    for x in walk(v):
+        if x.get("k") == "member" and x.get("n") == field:
+            return True
+        if depth and x.get("k") == "var" and isinstance(x.get("d"), int):
+            if any(_comes_from(f, w, field, depth - 1) for (_e, w) in _var_writes(f, x["d"])):
+                return True
+        if depth and x.get("k") in ("call", "mcall", "opcall") and x.get("inl"):
+            if any(_comes_from(f, y.get("v"), field, depth - 1) for y in f.nodes.values() if y.get("k") == "iret" and y.get("of") == x["id"]):
+                return True
+    return False
+
+
+def _mode_local(f):
+    """declaration id of THE local that holds the session's current read mode: a ReadMode-typed local (no parameter) that is
+    compared with ReadMode constants and whose value comes out of Impl::readModes.  Found by type and dataflow, not by name."""
+    cands = set()
+    for e in f.stmts():
+        cp = common.cmp_parts(e.node)
+        if cp and cp[0] in ("==", "!="):
+            for x in (strip_casts(cp[1]), strip_casts(cp[2])):
+                if x is not None and x.get("k") == "var" and _is_readmode(x.get("t")) and not _own_param(f, x) and isinstance(x.get("d"), int):
+                    cands.add(x["d"])
+    for b in f.blocks.values():
+        if b.term and b.term.get("k") == "SwitchStmt" and b.cond is not None:
+            x = strip_casts(b.cond)
+            if x is not None and x.get("k") == "var" and _is_readmode(x.get("t")) and not _own_param(f, x) and isinstance(x.get("d"), int):
+                cands.add(x["d"])
+    ok = sorted(d for d in cands if any(_comes_from(f, v, IMPL + "::readModes") for (_e, v) in _var_writes(f, d)))
+    if len(ok) != 1:
+        raise AnalysisBroken("%s: %d locals hold a read mode taken from Impl::readModes and are compared with ReadMode constants (expected one)" % (short(f.name), len(ok)))
+    return ok[0]
+
+
+def _payload_part(n):
+    """('data'|'size'|'end', declaration id) when n is `<view>.data()` (or begin()) / `<view>.size()` / `<view>.end()` on a
+    BufferView variable"""
+    n = strip_casts(n)
+    if n is None or n.get("k") != "mcall" or last(n.get("callee", "")) not in ("data", "size", "begin", "end") or n.get("args"):
+        return None
+    o = _arg_value(n.get("obj"))
+    if o is not None and o.get("k") == "var" and "BufferView" in (o.get("t") or "") and isinstance(o.get("d"), int):
+        return {"begin": "data"}.get(last(n["callee"]), last(n["callee"])), o["d"]
+    return None
+
+
+class _ModePredAbs(PredAbs):
+    """PredAbs that also reads `switch (<the mode local>) { case ReadMode::X: … }`: the edge into a case label assumes what an
+    `if (mode == ReadMode::X)` would, the default edge (or the edge past the switch) the negation of every case that has a
+    label.  atoms: {enumerator suffix: atom name}; the remaining enumerator(s) mean "none of the atoms"."""
+
+    def __init__(self, f, vocab, leaf, effects, mode_d, atoms, **kw):
+        self._mode_d, self._atoms = mode_d, atoms
+        PredAbs.__init__(self, f, vocab, leaf, effects, **kw)
+
+    def _case_formula(self, lab):
+        v = strip_casts(lab[1]) if isinstance(lab[1], dict) else None
+        if v is None or v.get("k") != "enum":
+            return None
+        for suf, atom in self._atoms.items():
+            if v["n"].endswith(suf):
+                return A(atom)
+        return And(*[Not(A(a)) for a in self._atoms.values()])
+
+    def _edge(self, st, b, si):
+        t = b.term
+        c = strip_casts(b.cond) if t and t.get("k") == "SwitchStmt" and b.cond is not None else None
+        if c is not None and c.get("k") == "var" and c.get("d") == self._mode_d:
+            lab = b.edge_label(si)
+            if isinstance(lab, tuple) and lab[0] == "case":
+                fm = self._case_formula(lab)
+            else:
+                others = [self._case_formula(b.edge_label(j)) for j in range(len(b.succs)) if isinstance(b.edge_label(j), tuple)]
+                fm = And(*[Not(x) for x in others if x is not None])
+            if fm is not None:
+                st = self.v.assume(st, fm)
+                return st if st else None
+            return st
+        return PredAbs._edge(self, st, b, si)
+
+
 def _ondata_abs(ctx):
-    od = lambdas(ctx)["onData"]
+    od = _ondata(ctx)
     vocab = Vocab(["fits", "overflow", "sync", "disabled"])
+    mode_d = _mode_local(od)
 
     inits = {}
     for e in od.stmts():
@@ -105,38 +898,43 @@ def _ondata_abs(ctx):
             return strip_casts(inits[x["d"]])
         return x
 
+    def is_max(x):
+        return x.get("k") == "member" and x["n"].endswith("::maxSyncReceiveBuffer")
+
+    sized = set()      # BufferView variables whose size() the capacity test adds: r3 checks that they are the arriving chunk
+
+    def is_new(x):
+        pp = _payload_part(x)
+        if pp is not None and pp[0] == "size":
+            sized.add(pp[1])
+            return True
+        return False
+
+    def is_sum(x):
+        if x.get("k") != "bin" or x["op"] != "+":
+            return False
+        ops = [strip_casts(x["lhs"]), strip_casts(x["rhs"])]
+        return any(_is_size_of(y, SRB + "::data") for y in ops) and any(is_new(y) for y in ops)
+
+    def is_room(x):
+        # max - buffered: the subtraction form of the same bound (cannot wrap: buffered <= max is what this rule maintains)
+        if x.get("k") != "bin" or x["op"] != "-":
+            return False
+        return is_max(strip_casts(x["lhs"])) and _is_size_of(x["rhs"], SRB + "::data")
+
     def leaf(n):
         k = n.get("k")
         if k == "member" and n["n"] == SRB + "::overflow":
             return A("overflow")
-        if k == "bin" and n["op"] in ("==", "!=") and any(x.get("k") == "var" and x["n"] == "mode" for x in walk(n)):
-            for x in walk(n):
-                if x.get("k") == "enum" and x["n"].endswith("ReadMode::Sync"):
-                    return A("sync") if n["op"] == "==" else Not(A("sync"))
-                if x.get("k") == "enum" and x["n"].endswith("ReadMode::Disabled"):
-                    return A("disabled") if n["op"] == "==" else Not(A("disabled"))
+        co = common.cmp_oriented(n, lambda x: (strip_casts(x) or {}).get("k") == "enum")
+        if co and co[0] in ("==", "!="):
+            v, en = strip_casts(co[1]), strip_casts(co[2])
+            if v is not None and v.get("k") == "var" and v.get("d") == mode_d:
+                for nm in ("sync", "disabled"):
+                    if en["n"].endswith("ReadMode::" + nm.capitalize()):
+                        return A(nm) if co[0] == "==" else Not(A(nm))
         if k == "bin" and n["op"] in (">", ">=", "<", "<="):
             l, rr = res(n["lhs"]), res(n["rhs"])
-
-            def is_max(x):
-                return x.get("k") == "member" and x["n"].endswith("::maxSyncReceiveBuffer")
-
-            def is_sum(x):
-                if x.get("k") != "bin" or x["op"] != "+":
-                    return False
-                txt = [strip_casts(x["lhs"]), strip_casts(x["rhs"])]
-                has_buf = any(y.get("k") == "mcall" and last(y.get("callee", "")) == "size" and field_of(y.get("obj")) == SRB + "::data" for y in txt)
-                has_new = any(y.get("k") == "mcall" and last(y.get("callee", "")) == "size" and (y.get("obj") or {}).get("k") == "var" for y in txt)
-                return has_buf and has_new
-            def is_new(x):
-                return x.get("k") == "mcall" and last(x.get("callee", "")) == "size" and (x.get("obj") or {}).get("k") == "var"
-
-            def is_room(x):
-                # max - buffered: the subtraction form of the same bound (cannot wrap: buffered <= max is what this rule maintains)
-                if x.get("k") != "bin" or x["op"] != "-":
-                    return False
-                a, b = strip_casts(x["lhs"]), strip_casts(x["rhs"])
-                return is_max(a) and b.get("k") == "mcall" and last(b.get("callee", "")) == "size" and field_of(b.get("obj")) == SRB + "::data"
             if is_new(l) and is_room(rr):
                 return Not(A("fits")) if n["op"] in (">",) else (A("fits") if n["op"] in ("<=",) else None)
             if is_room(l) and is_new(rr):
@@ -148,7 +946,7 @@ def _ondata_abs(ctx):
         return None
 
     def effects(e):
-        if e.kind == "dtor" and e.raw.get("t", "").startswith("std::lock_guard"):
+        if _lock_released(e):
             return [("havoc_all", ["fits", "overflow"])]
         if e.kind != "stmt":
             return None
@@ -158,19 +956,25 @@ def _ondata_abs(ctx):
             return [("set", "overflow", bool(v))] if v is not None else [("havoc", "overflow")]
         if n.get("k") == "mcall" and field_of(n.get("obj")) == SRB + "::data" and last(n["callee"]) in access.MUTATORS:
             return [("havoc", "fits")]
+        # the mode local is re-assigned: what was known about it is gone
+        if any(ev is e for (ev, _v) in _var_writes(od, mode_d)) and n.get("k") != "decl":
+            return [("havoc_all", ["sync", "disabled"])]
         return None
-    return od, PredAbs(od, vocab, leaf, effects, init=Not(And(A("sync"), A("disabled"))))
+    od.c03_sized = sized
+    # track_bools: `const bool tooBig = size + len > max; if (overflow || tooBig)` is as good as the test written in the `if`
+    return od, _ModePredAbs(od, vocab, leaf, effects, mode_d, {"ReadMode::Sync": "sync", "ReadMode::Disabled": "disabled"},
+                            init=Not(And(A("sync"), A("disabled"))), track_bools=True)
 
 
 def r3(ctx, r):
     fb = ctx.fb()
     od, pa = _ondata_abs(ctx)
-    ins = common.member_calls_on(od, SRB + "::data", ("insert", "append", "push_back", "emplace_back", "assign", "resize"))
+    ins = common.member_calls_on(od, SRB + "::data", APPENDERS)
     for i in ins:
         r.instance()
         r.expect(pa.entails(i, A("fits")), od, i, "append unbounded",
                  "arriving bytes are appended to the per-session sync buffer on a path where `size + len <= maxSyncReceiveBuffer` is not established "
-                 "(known: %s): a peer can grow the buffer without bound" % (",".join(pa.describe(i)) or "nothing"),
+                 "(known: %s): a peer can grow the buffer without bound" % (",".join(x for x in pa.describe(i) if not x.lstrip("!").startswith("b:")) or "nothing"),
                  okdesc="append only where size+len <= maxSyncReceiveBuffer")
         r.instance()
         r.expect(pa.entails(i, Not(A("overflow"))), od, i, "append after overflow",
@@ -182,17 +986,44 @@ def r3(ctx, r):
         # append at the end only (ordered stream)
         n = i.node
         if last(n["callee"]) == "insert":
-            pos = strip_wrappers(n["args"][0]) if n["args"] else None
-            txt = show(pos) if pos else ""
+            m, fld, off = _iter_of(n["args"][0]) if n["args"] else (None, None, None)
             r.instance()
-            r.expect(".end()" in txt or "end(" in txt, od, i, "insert not at end", "arriving bytes are inserted at `%s`, not at the end of the buffer: order is lost" % txt,
+            r.expect(m == "end" and fld == SRB + "::data" and off is None, od, i, "insert not at end",
+                     "arriving bytes are inserted at `%s`, not at the end of the buffer: order is lost" % (show(strip_wrappers(n["args"][0])) if n["args"] else "?"),
                      okdesc="insert position is data.end()")
-            # the inserted range is the whole callback payload [data.data(), data.data()+data.size())
+            # the inserted range is the whole callback payload [p.data(), p.data() + p.size()), p the BufferView parameter of the callback
             if len(n["args"]) >= 3:
-                a1, a2 = show(strip_wrappers(n["args"][1])), show(strip_wrappers(n["args"][2]))
+                a1 = _stands_for(od, i, n["args"][1])[-1]
+                a2 = _stands_for(od, i, n["args"][2])[-1]
+                p1 = _payload_part(a1)
+                p2 = None
+                if a2.get("k") == "bin" and a2["op"] == "+":
+                    p2 = sorted(filter(None, (_payload_part(a2["lhs"]), _payload_part(a2["rhs"]))))
+                views = {x["d"] for a in (a1, a2) for x in walk(a) if x.get("k") == "var" and "BufferView" in (x.get("t") or "")}
+                other = [x for a in (a1, a2) for x in walk(a) if x.get("k") == "var" and "BufferView" not in (x.get("t") or "")]
+                if len(views) != 1 or (other and not (p1 and ((p2 and len(p2) == 2) or _payload_part(a2)))):
+                    raise AnalysisBroken("onData: cannot tell which bytes `%s` appends (range [%s, %s))" % (show(n)[:60], show(a1)[:40], show(a2)[:40]))
+                d = views.pop()
+                whole = p1 == ("data", d) and (p2 == [("data", d), ("size", d)] or _payload_part(a2) == ("end", d))
                 r.instance()
-                r.expect(a1 == "data.data()" and a2.replace(" ", "") in ("data.data()+data.size()", "data.size()+data.data()"), od, i, "partial append",
-                         "the appended range is [%s, %s), not the whole arriving chunk" % (a1, a2), okdesc="whole chunk appended")
+                r.expect(whole, od, i, "partial append", "the appended range is [%s, %s), not the whole arriving chunk" % (show(a1), show(a2)), okdesc="whole chunk appended")
+                # … and that view is what the engine handed in: the callback's own BufferView parameter (a helper's parameter that
+                # was bound to it reads as the parameter itself after expansion), or a local that stands for it
+                view = [x for a in (a1, a2) for x in walk(a) if x.get("k") == "var" and x.get("d") == d][0]
+                vchain = _stands_for(od, i, view)
+                built = vchain[-1] if vchain and vchain[-1].get("k") in ("ctor", "ilist") and "BufferView" in (vchain[-1].get("t", "") + vchain[-1].get("cls", "")) else None
+                if built is not None and [x for x in walk(built) if x.get("k") == "var"] and all(_own_param(od, x) for x in walk(built) if x.get("k") == "var"):
+                    # a view built from the payload's own data()/size() that is not all of it (the whole-view form was followed above)
+                    r.instance()
+                    r.fail(od, i, "partial append", "the appended bytes are `%s`, a part of the arriving chunk" % show(built)[:80])
+                elif not any(_own_param(od, y) for y in vchain):
+                    raise AnalysisBroken("onData: the appended view `%s` is not the callback's payload parameter and cannot be traced back to it" % view.get("n"))
+    # the chunk whose size the capacity test counts is the arriving chunk (not some other, smaller view)
+    pds = {p_.get("d") for p_ in od.params}
+    for d in sorted(od.c03_sized - pds):
+        ws = _var_writes(od, d)
+        if len(ws) != 1 or not any(_own_param(od, y) for y in _stands_for(od, ws[0][0], ws[0][1])):
+            raise AnalysisBroken("onData: the capacity test counts the size of a view that cannot be traced back to the callback's payload parameter")
     # overflow is sticky: only ever assigned true
     n_w = 0
     for f in fb.in_file(FILE):
@@ -209,33 +1040,45 @@ def r3(ctx, r):
         r.fail(od, None, "overflow never set", "nothing sets `overflow` any more: a dropped chunk is silent")
 
 
+def _results(f):
+    """elements that produce the function's result: its own returns and the returns of helpers expanded in place (their value
+    is what the enclosing `return helper(...)` hands on)"""
+    return [e for e in f.stmts() if e.node.get("k") in ("ret", "iret")]
+
+
 def r4(ctx, r):
     fb, la = ctx.fb(), _la(ctx)
-    f = fb.func("iora::network::Transport::receiveSync")
-    waits = [e for e in f.stmts() if e.node.get("k") == "mcall" and e.node.get("callee", "").startswith("std::condition_variable")]
+    f = anchor(ctx, fb.func("iora::network::Transport::receiveSync"))
+    waits = [e for e in f.stmts() if e.node.get("k") == "mcall" and e.node.get("callee", "").startswith("std::condition_variable") and last(e.node["callee"]) in common.CV_WAIT]
     if len(waits) != 1:
         raise AnalysisBroken("receiveSync: expected one condition-variable wait, found %d" % len(waits))
     wait = waits[0]
-    vocab = Vocab(["empty"])
+    vocab = Vocab(["empty", "overflow"])
 
     def leaf(n):
-        if n.get("k") == "mcall" and last(n.get("callee", "")) == "empty" and field_of(n.get("obj")) == SRB + "::data":
-            return A("empty")
+        et = _empty_test(n, SRB + "::data")
+        if et is not None:
+            return A("empty") if et else Not(A("empty"))
+        if n.get("k") == "member" and n["n"] == SRB + "::overflow":
+            return A("overflow")
         return None
 
     def effects(e):
+        if _lock_released(e):
+            return [("havoc_all", ["empty", "overflow"])]      # the lock is released: the I/O thread may append / drop in between
         if e.kind != "stmt":
             return None
         n = e.node
-        if n.get("k") == "mcall" and (n.get("callee", "").startswith("std::condition_variable") or n.get("callee") == "std::unique_lock::unlock"):
-            return [("havoc", "empty")]
         if n.get("k") == "mcall" and field_of(n.get("obj")) == SRB + "::data" and last(n["callee"]) in access.MUTATORS:
             return [("havoc", "empty")]
+        if n.get("k") == "bin" and n["op"] == "=" and field_of(n["lhs"]) == SRB + "::overflow":
+            v = const_value(n["rhs"])
+            return [("set", "overflow", bool(v))] if v is not None else [("havoc", "overflow")]
         return None
-    pa = PredAbs(f, vocab, leaf, effects)
+    pa = PredAbs(f, vocab, leaf, effects, track_bools=True)
     codes = ("BufferOverflow", "PeerClosed", "ShuttingDown")
     n_ret = 0
-    for e in common.returns(f):
+    for e in _results(f):
         if not elem_dominates(f, wait, e):
             continue
         for c in codes:
@@ -245,6 +1088,17 @@ def r4(ctx, r):
                 r.expect(pa.entails(e, A("empty")), f, e, "return %s before drain" % c,
                          "receiveSync can return %s while bytes that arrived earlier are still buffered: the tail of the stream is lost" % c,
                          okdesc="return %s only with buf->data empty" % c)
+                if c == "PeerClosed":
+                    # overflow before EOF: "peer closed" tells the reader that it has seen the whole stream.  It may be said only
+                    # where the overflow flag was seen clear in the critical section of the return — otherwise a session that
+                    # dropped a chunk and was then closed reads as a clean, complete stream (the gap is undetectable, and the
+                    # entry that carries the sticky flag is reclaimed on this very path).
+                    r.instance()
+                    r.expect(pa.entails(e, Not(A("overflow"))), f, e, "return PeerClosed with overflow pending",
+                             "receiveSync returns PeerClosed (line %d) on a path where `overflow` has not been seen false since the lock was last taken (known: %s): after a chunk was "
+                             "dropped and the peer closed, the reader gets the bytes from before the gap and then a clean end-of-stream — BufferOverflow is never "
+                             "reported (the closed test runs before / without the overflow test)" % (e.line, ",".join(x for x in pa.describe(e) if not x.lstrip("!").startswith("b:")) or "nothing"),
+                             okdesc="return PeerClosed only behind the false edge of the overflow test")
     if n_ret < 3:
         r.fail(f, None, "terminal returns missing", "receiveSync no longer reports overflow / peer-closed / shutting-down after the wait (found %d of 3)" % n_ret)
     # shape of the data path
@@ -256,32 +1110,57 @@ def r4(ctx, r):
         return
     cp, er = cps[0], erases[0]
     a = cp.node["args"]
-    src = show(strip_wrappers(a[1])) if len(a) > 1 else ""
-    cnt = strip_casts(strip_wrappers(a[2])) if len(a) > 2 else None
-    r.expect(src.endswith("data.data()") and "+" not in src, f, cp, "copy not from front", "bytes are copied from `%s`, not from the front of the buffer" % src,
+    if last(cp.node.get("callee", "")) in ("copy", "copy_n"):
+        srcn = a[0] if a else None
+        # copy_n(first, n, out) / copy(first, first + n, out)
+        cntn = (a[1] if last(cp.node["callee"]) == "copy_n" else _iter_of(a[1])[2]) if len(a) > 1 else None
+    else:
+        srcn, cntn = (a[1] if len(a) > 1 else None), (a[2] if len(a) > 2 else None)
+    # the source is the first byte of the buffer: data.data() / data.begin() / &data[0]; `+ k` or `[k]` is a report
+    src = strip_casts(strip_wrappers(srcn)) if srcn is not None else None
+    front = None
+    if src is not None:
+        if src.get("k") == "mcall" and last(src.get("callee", "")) == "data" and field_of(src.get("obj")) == SRB + "::data":
+            front = True
+        elif _iter_of(src)[0] is not None and _iter_of(src)[1] == SRB + "::data":
+            front = _iter_of(src)[0] == "begin" and _iter_of(src)[2] is None
+        elif src.get("k") == "bin" and src["op"] in ("+", "-") and any(x.get("k") == "member" and x["n"] == SRB + "::data" for x in walk(src)):
+            front = False
+        elif src.get("k") == "un" and src["op"] == "&" and field_of(src["v"]) == SRB + "::data":
+            idx = [x for x in walk(src) if x.get("k") == "opcall" and x.get("op") == "[]"]
+            front = bool(idx) and const_value(idx[0]["args"][1]) == 0
+    if front is None:
+        raise AnalysisBroken("receiveSync: cannot tell where `%s` copies from" % show(cp.node)[:80])
+    r.expect(front, f, cp, "copy not from front", "bytes are copied from `%s`, not from the front of the buffer" % show(src),
              okdesc="memcpy source is the front of buf->data")
+    # the length is min(<the caller's capacity: an integer parameter of receiveSync>, <bytes buffered>)
     r.instance()
     okmin = False
-    if cnt is not None and cnt.get("k") == "var":
-        init = None
-        for e in f.stmts():
-            if e.node.get("k") == "decl":
-                for v in e.node["vars"]:
-                    if v["d"] == cnt.get("d"):
-                        init = strip_wrappers(v.get("init"))
-        if init is not None and init.get("k") == "call" and init.get("callee") == "std::min":
-            args = sorted(show(strip_wrappers(x)) for x in init["args"][:2])
-            okmin = args == sorted(["len", "buf->data.size()"])
+    chain_at = _stands_for_at(f, cp, cntn) if cntn is not None else []
+    chain = [x for (x, _at) in chain_at]
+    cnt_ds = {x["d"] for x in chain if x.get("k") == "var" and isinstance(x.get("d"), int)}
+    for (x, at) in chain_at:
+        mn = _min_of(x)
+        if mn:
+            for (p, q) in (mn, mn[::-1]):
+                if _is_size_of(p, SRB + "::data") and _is_caller_capacity(f, at, q):
+                    okmin = True
+    if not okmin and _cannot_tell(f, chain):
+        raise AnalysisBroken("receiveSync: cannot tell what the copy length `%s` is" % show(chain[-1])[:50])
     r.expect(okmin, f, cp, "copy length", "the copy length is not min(len, buf->data.size()): the caller's buffer can overflow or bytes are skipped",
              okdesc="copyLen = min(len, data.size())")
+    # exactly the copied prefix is erased: erase(begin, begin + <the copy length>)
     r.instance()
     ea = er.node["args"]
-    t0 = show(strip_wrappers(ea[0])).replace("__normal_iterator", "").replace(" ", "") if ea else ""
-    t1 = show(strip_wrappers(ea[1])).replace("__normal_iterator", "").replace(" ", "") if len(ea) > 1 else ""
-    cn = cnt["n"] if cnt is not None and cnt.get("k") == "var" else "?"
-    ok = t0 in ("(buf->data.begin())",) and t1 in ("(buf->data.begin()+(long)%s)" % cn, "(buf->data.begin()+%s)" % cn)
-    r.expect(ok, f, er, "erase range", "the erased range is [%s, %s), not exactly the copied prefix [begin, begin+%s): bytes are lost or delivered twice" % (t0, t1, cn),
-             okdesc="erase(begin, begin+copyLen)")
+    m0, f0, o0 = _iter_of(ea[0]) if ea else (None, None, None)
+    m1, f1, o1 = _iter_of(ea[1]) if len(ea) > 1 else (None, None, None)
+    ochain = _stands_for(f, er, o1) if o1 is not None else []
+    same_len = o1 is not None and o1.get("k") == "var" and bool(cnt_ds & {x["d"] for x in ochain if x.get("k") == "var" and isinstance(x.get("d"), int)})
+    if (m1, f1) == ("begin", SRB + "::data") and not same_len and _cannot_tell(f, ochain):
+        raise AnalysisBroken("receiveSync: cannot tell how many bytes `%s` erases" % show(er.node)[:60])
+    ok = (m0, f0, o0) == ("begin", SRB + "::data", None) and (m1, f1) == ("begin", SRB + "::data") and same_len
+    r.expect(ok, f, er, "erase range", "the erased range is [%s, %s), not exactly the copied prefix [begin, begin+<copy length>): bytes are lost or delivered twice" % (
+        show(strip_wrappers(ea[0])) if ea else "?", show(strip_wrappers(ea[1])) if len(ea) > 1 else "?"), okdesc="erase(begin, begin+copyLen)")
     r.instance()
     r.expect(elem_dominates(f, cp, er) and la.holds(f, cp, SYNC) and la.holds(f, er, SYNC), f, er, "copy/erase order",
              "copy and erase are not ordered copy-then-erase under syncMutex", okdesc="copy then erase under the lock")
@@ -292,74 +1171,88 @@ def r4(ctx, r):
              "(waits although data is buffered, or spins on an empty buffer)", okdesc="hasData recomputed after erase")
     # the length reported is the length copied
     r.instance()
-    oks = [e for e in common.returns(f) if "Result::ok" in show(e.node)]
-    r.expect(len(oks) == 1 and cn in show(oks[0].node), f, oks[0] if oks else None, "ok length", "the success result does not report the copied length",
+    oks = []
+    for e in f.stmts():
+        if e.node.get("k") == "ret":
+            for x in walk(e.node):
+                if x.get("k") == "call" and (x.get("callee") or "").endswith("Result::ok"):
+                    oks.append((e, x))
+    okl = False
+    if len(oks) == 1 and oks[0][1]["args"]:
+        kchain = _stands_for(f, oks[0][0], oks[0][1]["args"][0])
+        okl = bool(cnt_ds & {x["d"] for x in kchain if x.get("k") == "var" and isinstance(x.get("d"), int)})
+        if not okl and _cannot_tell(f, kchain):
+            raise AnalysisBroken("receiveSync: cannot tell which length `%s` reports" % show(oks[0][1])[:60])
+    r.expect(okl, f, oks[0][0] if oks else None, "ok length", "the success result does not report the copied length",
              okdesc="returns ok(copyLen)")
 
 
 def r5(ctx, r):
     fb, la = ctx.fb(), _la(ctx)
-    f = fb.func("iora::network::Transport::setReadMode")
-    vocab = Vocab(["flushcase", "nobuf", "dataempty", "shutting"])
+    f = anchor(ctx, fb.func("iora::network::Transport::setReadMode"))
+    # the two read modes the rule talks about, found by type and role instead of by name: the REQUESTED mode is setReadMode's
+    # ReadMode parameter, the OLD mode is the ReadMode local whose value comes out of Impl::readModes
+    req = [p_ for p_ in f.params if _is_readmode(p_.get("t"))]
+    if len(req) != 1:
+        raise AnalysisBroken("setReadMode: expected one ReadMode parameter, found %d" % len(req))
+    req_d = req[0]["d"]
+    old_d = _mode_local(f)
 
-    def leaf(n):
-        k = n.get("k")
-        if k == "bin" and n["op"] == "&&":
-            txt = show(n)
-            if "oldMode == ReadMode::Sync" in txt and "mode == ReadMode::Async" in txt:
-                return A("flushcase")
-        if k == "bin" and n["op"] in ("==", "!=") and "receiveBuffers.end()" in show(n):
-            return A("nobuf") if n["op"] == "==" else Not(A("nobuf"))
-        if k == "mcall" and last(n.get("callee", "")) == "empty" and field_of(n.get("obj")) == SRB + "::data":
-            return A("dataempty")
-        if k == "member" and n["n"] == IMPL + "::shuttingDown":
-            return A("shutting")
-        return None
+    def is_var(x, d):
+        x = strip_casts(x)
+        return x is not None and x.get("k") == "var" and x.get("d") == d
+
     # `!(oldMode == Sync && mode == Async)` is split over two blocks by the CFG: model the conjunction through its leaves
     vocab2 = Vocab(["oldsync", "newasync", "nobuf", "dataempty", "closed"])
 
     def leaf2(n):
         k = n.get("k")
-        cp = common.cmp_parts(n)
-        if cp and cp[0] in ("==", "!="):
-            txt = show(n)
-            if txt.startswith("oldMode") and txt.endswith("ReadMode::Sync"):
-                return A("oldsync") if cp[0] == "==" else Not(A("oldsync"))
-            if txt.startswith("mode") and txt.endswith("ReadMode::Async"):
-                return A("newasync") if cp[0] == "==" else Not(A("newasync"))
-            if "receiveBuffers.end()" in txt and "find" not in txt:
-                return A("nobuf") if cp[0] == "==" else Not(A("nobuf"))
-        if k == "mcall" and last(n.get("callee", "")) == "empty" and field_of(n.get("obj")) == SRB + "::data":
-            return A("dataempty")
+        co = common.cmp_oriented(n, lambda x: (strip_casts(x) or {}).get("k") == "enum")
+        if co and co[0] in ("==", "!="):
+            en = strip_casts(co[2])["n"]
+            if is_var(co[1], old_d) and en.endswith("ReadMode::Sync"):
+                return A("oldsync") if co[0] == "==" else Not(A("oldsync"))
+            if is_var(co[1], req_d) and en.endswith("ReadMode::Async"):
+                return A("newasync") if co[0] == "==" else Not(A("newasync"))
+        # <iterator local> ==/!= receiveBuffers.end(): the session has no receive buffer (the lookup is a local's value, so that
+        # the fact is about the lookup the following code dereferences)
+        co = common.cmp_oriented(n, lambda x: _iter_of(x)[:2] == ("end", IMPL + "::receiveBuffers") and _iter_of(x)[2] is None)
+        if co and co[0] in ("==", "!=") and (strip_casts(co[1]) or {}).get("k") == "var":
+            return A("nobuf") if co[0] == "==" else Not(A("nobuf"))
+        ct = _count_test(n, IMPL + "::receiveBuffers")
+        if ct is not None:
+            return A("nobuf") if ct else Not(A("nobuf"))
+        et = _empty_test(n, SRB + "::data")
+        if et is not None:
+            return A("dataempty") if et else Not(A("dataempty"))
         if k == "member" and n["n"] == SRB + "::closed":
             return A("closed")
         return None
 
     def effects(e):
-        if e.kind == "dtor" and e.raw.get("t", "").startswith(("std::lock_guard", "std::unique_lock")):
+        if _lock_released(e):
             return [("havoc_all", ["nobuf", "dataempty", "closed"])]
         if e.kind != "stmt":
             return None
         n = e.node
-        if n.get("k") == "mcall" and n.get("callee") == "std::unique_lock::unlock":
-            return [("havoc_all", ["nobuf", "dataempty", "closed"])]
         # the local copy of the old mode: `oldMode = ReadMode::Sync` / `= it->second` / its declaration
-        if n.get("k") in ("bin", "opcall") and n.get("op") == "=":
-            lhs = strip_casts(n["lhs"] if n.get("k") == "bin" else n["args"][0])
-            rhs = strip_casts(n["rhs"] if n.get("k") == "bin" else n["args"][1])
-            if lhs.get("k") == "var" and lhs.get("n") == "oldMode":
-                return [("set", "oldsync", rhs["n"].endswith("ReadMode::Sync"))] if rhs.get("k") == "enum" else [("havoc", "oldsync")]
-        if n.get("k") == "decl":
-            for v in n["vars"]:
-                if v["n"] == "oldMode":
-                    i = strip_casts(v.get("init") or {})
-                    return [("set", "oldsync", i["n"].endswith("ReadMode::Sync"))] if i.get("k") == "enum" else [("havoc", "oldsync")]
+        for (ev, v) in _var_writes(f, old_d):
+            if ev is e:
+                i = strip_casts(v) if isinstance(v, dict) else None
+                return [("set", "oldsync", i["n"].endswith("ReadMode::Sync"))] if i is not None and i.get("k") == "enum" else [("havoc", "oldsync")]
+        for (ev, v) in _var_writes(f, req_d):
+            if ev is e:
+                return [("havoc", "newasync")]
         if n.get("k") == "mcall" and field_of(n.get("obj")) == SRB + "::data" and last(n["callee"]) in access.MUTATORS:
             return [("havoc", "dataempty")]
         if n.get("k") == "opcall" and n.get("op") == "=" and field_of(n["args"][0]) == SRB + "::data":
             return [("havoc", "dataempty")]
+        if n.get("k") == "call" and n.get("callee") == "std::swap" and any(field_of(strip_wrappers(a)) == SRB + "::data" for a in n["args"]):
+            return [("havoc", "dataempty")]
+        if n.get("k") == "mcall" and last(n.get("callee", "")) == "swap" and any(field_of(strip_wrappers(a)) == SRB + "::data" for a in n["args"]):
+            return [("havoc", "dataempty")]
         return None
-    pa = PredAbs(f, vocab2, leaf2, effects)
+    pa = PredAbs(f, vocab2, leaf2, effects, track_bools=True)
     # (a) every write of the mode
     writes = []
     for e in f.stmts():
@@ -373,19 +1266,20 @@ def r5(ctx, r):
     for e in writes:
         r.instance()
         n = e.node
-        rhs = strip_casts(n["rhs"] if n.get("k") == "bin" else n["args"][1])
+        rhs = _arg_value(strip_casts(n["rhs"] if n.get("k") == "bin" else n["args"][1]))
         nothing_pending = Or(A("nobuf"), A("dataempty"), A("closed"))
         if rhs.get("k") == "enum":
             # a constant: only `= Async` hands the session to the data callback
             need = nothing_pending if rhs["n"].endswith("ReadMode::Async") else T
-        elif rhs.get("k") == "var" and rhs.get("n") == "mode":
+        elif is_var(rhs, req_d):
             need = Or(Not(A("newasync")), nothing_pending)
         else:
             raise AnalysisBroken("setReadMode: readModes written with `%s`" % show(rhs)[:40])
         ok = la.holds(f, e, SYNC) and pa.entails(e, need)
         r.expect(ok, f, e, "mode switched with data buffered",
                  "the session is switched to Async (line %d) without the receive buffer having been seen absent, empty or closed in the same critical section (known: %s) — whatever the old mode was: bytes buffered in an "
-                 "earlier Sync phase (Sync → Disabled → Async) are never handed to the data callback and come out of a later receiveSync after bytes that arrived later" % (e.line, ",".join(pa.describe(e)) or "nothing"),
+                 "earlier Sync phase (Sync → Disabled → Async) are never handed to the data callback and come out of a later receiveSync after bytes that arrived later" % (
+                     e.line, ",".join(x for x in pa.describe(e) if not x.lstrip("!").startswith("b:")) or "nothing"),
                  okdesc="mode write at line %s: not to Async, or nothing pending, under syncMutex" % e.line)
     # (b) user callback invoked with no transport lock
     invs = common.fn_invocations(f)
@@ -397,20 +1291,46 @@ def r5(ctx, r):
     if not invs:
         r.fail(f, None, "flush delivers nothing", "setReadMode no longer delivers the buffered bytes to the data callback on Sync→Async")
     # (c) the bytes are moved out under the lock, and what is delivered is what was moved out
-    moves = [e for e in f.stmts() if e.node.get("k") == "opcall" and e.node.get("op") == "=" and len(e.node["args"]) == 2 and
-             field_of(strip_wrappers(e.node["args"][1])) == SRB + "::data"]
+    # `local = std::move(buf->data)`, `std::vector<…> local(std::move(buf->data))` / `= std::move(…)`, `local.swap(buf->data)`,
+    # `buf->data.swap(local)`, `std::swap(local, buf->data)`: (element, the local that receives the bytes)
+    def is_buf(x):
+        return field_of(_arg_value(strip_wrappers(x))) == SRB + "::data" if isinstance(x, dict) else False
+    taken = []
+    for e in f.stmts():
+        n = e.node
+        k = n.get("k")
+        if k == "opcall" and n.get("op") == "=" and len(n["args"]) == 2 and is_buf(n["args"][1]):
+            taken.append((e, strip_wrappers(n["args"][0])))
+        elif k == "decl":
+            for v in n["vars"]:
+                if "vector" in (v.get("t") or "") and is_buf(v.get("init")):
+                    taken.append((e, {"k": "var", "n": v["n"], "d": v["d"]}))
+        elif k == "mcall" and last(n.get("callee", "")) == "swap" and len(n["args"]) == 1:
+            o, a0 = strip_wrappers(n.get("obj")), strip_wrappers(n["args"][0])
+            if is_buf(a0) and (o or {}).get("k") == "var":
+                taken.append((e, o))
+            elif is_buf(o) and (a0 or {}).get("k") == "var":
+                taken.append((e, a0))
+        elif k == "call" and n.get("callee") == "std::swap" and len(n["args"]) == 2:
+            a0, a1 = strip_wrappers(n["args"][0]), strip_wrappers(n["args"][1])
+            if is_buf(a1) and (a0 or {}).get("k") == "var":
+                taken.append((e, a0))
+            elif is_buf(a0) and (a1 or {}).get("k") == "var":
+                taken.append((e, a1))
+    moves = [e for (e, _d) in taken]
     r.instance()
     r.expect(len(moves) == 1 and la.holds(f, moves[0], SYNC), f, moves[0] if moves else None, "move-out",
              "buffered bytes are not taken out of the buffer in exactly one place under syncMutex", okdesc="flushData = move(buf->data) under the lock")
     if moves and invs:
-        dst = strip_wrappers(moves[0].node["args"][0])
+        dst = taken[0][1]
         r.instance()
-        r.expect(all(dst.get("n", "?") in show(e.node) for (e, _) in invs), f, invs[0][0], "delivers other bytes",
+        # the local that received the buffer's bytes (whatever it is called) is what the callback's view is built from
+        r.expect(dst.get("k") == "var" and all(any(x.get("k") == "var" and x.get("d") == dst.get("d") for x in walk(e.node)) for (e, _) in invs), f, invs[0][0], "delivers other bytes",
                  "the callback is not given the bytes that were moved out of the buffer", okdesc="callback receives the moved-out bytes")
     # (d) FlushGuard is created in the critical section that fetched the buffer
     mk = [e for e in f.stmts() if e.node.get("k") == "call" and e.node.get("callee") == "std::make_unique" and "FlushGuard" in e.node.get("t", "")] + \
          [e for e in f.stmts() if e.node.get("k") == "ctor" and e.node.get("cls") == IMPL + "::FlushGuard"]
-    finds = [e for e in common.member_calls_on(f, IMPL + "::receiveBuffers", ("find",))]
+    finds = [e for e in common.member_calls_on(f, IMPL + "::receiveBuffers", ("find", "at", "operator[]"))]
     r.instance()
     if not mk:
         r.fail(f, None, "no FlushGuard", "the Sync→Async flush is no longer covered by a FlushGuard (GC / teardown can free the buffer under the flusher)")
@@ -429,8 +1349,13 @@ def r5(ctx, r):
                  "callback before move", "callback not reachable from the move-out", okdesc="move-out precedes delivery")
 
 
+def _onclose(ctx):
+    """the engine close callback, with calls into helpers of Transport::Impl expanded in place"""
+    return anchor(ctx, lambdas(ctx)["onClose"])
+
+
 def r6(ctx, r):
-    oc = lambdas(ctx)["onClose"]
+    oc = _onclose(ctx)
     la = _la(ctx)
 
     def stop(e):
@@ -452,7 +1377,8 @@ def r6(ctx, r):
     for e in closes:
         r.expect(la.holds(oc, e, SYNC), oc, e, "closed outside lock", "closed flag written without syncMutex", okdesc="closed=true under syncMutex")
     stores = [e for e in oc.stmts() if e.node.get("k") == "opcall" and e.node.get("op") == "=" and
-              (access_path(e.node["args"][0]) or ("", ""))[-2:] == (IMPL + "::receiveBuffers", "[]")]
+              (access_path(e.node["args"][0]) or ("", ""))[-2:] == (IMPL + "::receiveBuffers", "[]")] + \
+        common.member_calls_on(oc, IMPL + "::receiveBuffers", ("emplace", "try_emplace", "insert", "insert_or_assign"))
     notifs = [e for e in oc.stmts() if e.node.get("k") == "mcall" and last(e.node["callee"]) == "notify_all" and field_of(e.node.get("obj")) == SRB + "::cv"]
     r.instance(2)
     r.expect(bool(stores), oc, None, "tombstone not stored", "no closed tombstone is stored for a session that had no receive buffer", okdesc="tombstone stored in receiveBuffers")
@@ -483,48 +1409,97 @@ def r8(ctx, r):
         raise AnalysisBroken("transport_impl.hpp: %d condition-variable waits found, expected 3" % n)
 
 
+def _root_callers(fb, cg, h):
+    """the functions in whose expanded body the code of helper h ends up: its callers, followed upwards through callers that
+    are themselves expanded into theirs"""
+    out, seen, work = [], set(), [h]
+    while work:
+        g = work.pop()
+        for (c, _e, _n) in cg.callers.get(g.name, []):
+            if not c.ok or c.sig in seen or not c.file.endswith(FILE):
+                continue
+            seen.add(c.sig)
+            if c.kind != "lambda" and _own_helper(fb, c.name) is c and cg.callers.get(c.name):
+                work.append(c)
+            else:
+                out.append(c)
+    return out
+
+
 def r9(ctx, r):
     """While a session is in Sync mode the bytes that arrive go to its receiveBuffers entry; the data handler drops them when
     there is no entry.  So an entry may disappear only once nothing more can arrive for it: every erase is behind `closed`."""
     from ..finite import dominating_facts
-    fb = ctx.fb()
+    fb, cg = ctx.fb(), ctx.cg()
+
+    def flag_true(c, t):
+        c = strip_casts(c)
+        if c.get("k") == "member" and c["n"] == SRB + "::closed":
+            return t
+        if c.get("k") == "bin" and c.get("op") in ("==", "!="):
+            l, rr = strip_casts(c["lhs"]), strip_casts(c["rhs"])
+            if rr.get("k") == "member":
+                l, rr = rr, l
+            if l.get("k") == "member" and l["n"] == SRB + "::closed" and const_value(rr) is not None:
+                return ((c["op"] == "==") == bool(const_value(rr))) == t
+        return False
+
+    def drained(c, t):
+        c = strip_casts(c)
+        et = _empty_test(c, SRB + "::data")
+        if et is not None:
+            return et == t
+        if c.get("k") == "member" and c["n"] == SRB + "::hasData":
+            return not t
+        return False
+
+    def judge(g, e):
+        """(closed known, drained known, facts) at element e of (expanded) function g"""
+        from ..finite import flatten_fact
+        facts = []
+        for (c, t) in dominating_facts(g, e):
+            c0 = strip_casts(c)
+            # a condition that was given a name (`const bool stale = …; … if (stale)`): read the one value the local has
+            if c0 is not None and c0.get("k") == "var" and (c0.get("t") or "").replace("const ", "").strip() == "bool":
+                ws = _var_writes(g, c0["d"])
+                # (only while the lock has been held since: a value computed in an earlier critical section says nothing now)
+                if len(ws) == 1 and isinstance(ws[0][1], dict) and search(g, ws[0][0], _lock_released, stop=lambda x: x is e, eh=False) is None:
+                    facts += flatten_fact(ws[0][1], t)
+                    continue
+            facts.append((c, t))
+        return any(flag_true(c, t) for (c, t) in facts), any(drained(c, t) for (c, t) in facts), facts
+
     n = 0
     for f in fb.in_file(FILE):
         if not f.ok:
             continue
-        for e in common.member_calls_on(f, IMPL + "::receiveBuffers", ("erase", "clear", "extract", "swap")):
+        for e0 in common.member_calls_on(f, IMPL + "::receiveBuffers", ("erase", "clear", "extract", "swap")):
             n += 1
             r.instance()
             if f.kind in ("dtor",) or f.name.endswith("::~Impl"):
                 continue
-            facts = dominating_facts(f, e)
-            def flag_true(c, t):
-                c = strip_casts(c)
-                if c.get("k") == "member" and c["n"] == SRB + "::closed":
-                    return t
-                if c.get("k") == "bin" and c.get("op") in ("==", "!="):
-                    l, rr = strip_casts(c["lhs"]), strip_casts(c["rhs"])
-                    if rr.get("k") == "member":
-                        l, rr = rr, l
-                    if l.get("k") == "member" and l["n"] == SRB + "::closed" and const_value(rr) is not None:
-                        return ((c["op"] == "==") == bool(const_value(rr))) == t
-                return False
-            closed = any(flag_true(c, t) for (c, t) in facts)
-
-            def drained(c, t):
-                c = strip_casts(c)
-                if c.get("k") == "mcall" and last(c.get("callee", "")) == "empty" and field_of(c.get("obj")) == SRB + "::data":
-                    return t
-                if c.get("k") == "member" and c["n"] == SRB + "::hasData":
-                    return not t
-                return False
-            empty = any(drained(c, t) for (c, t) in facts)
-            r.expect(closed, f, e, "live receive buffer erased", "%s removes a receiveBuffers entry that is not known to be closed (known: %s): bytes that arrive for the session afterwards find no buffer and "
-                     "are dropped by the data handler while the mode is still Sync — the next receiveSync misses them" % (short(f.name), "; ".join(("" if t else "!") + show(c)[:40] for c, t in facts[-4:]) or "nothing"),
+            # judged where the erase is written, with the predicates it calls read as the expressions they return …
+            g = expanded(ctx, f)
+            e = g.elem_of.get(e0.node["id"]) or e0
+            closed, empty, facts = judge(g, e)
+            if not (closed and empty) and f.kind != "lambda" and _own_helper(fb, f.name) is f:
+                # … and, when the erase sits in a helper that does not test the buffer itself, at every place the helper's code
+                # ends up in: the guard may have stayed with the caller
+                sites = []
+                for c in _root_callers(fb, cg, f):
+                    gc = expanded(ctx, c)
+                    sites += [(gc, gc.elem_for(x)) for x in gc.nodes.values() if x.get("org") == [f.name, e0.node["id"]]]
+                if sites and all(se is not None for (_g, se) in sites):
+                    js = [judge(gc, se) for (gc, se) in sites]
+                    closed, empty = all(j[0] for j in js), all(j[1] for j in js)
+                    facts = [x for j in js if not (j[0] and j[1]) for x in j[2]] or facts
+            known = "; ".join(("" if t else "!") + show(c)[:40] for c, t in facts[-4:]) or "nothing"
+            r.expect(closed, f, e0, "live receive buffer erased", "%s removes a receiveBuffers entry that is not known to be closed (known: %s): bytes that arrive for the session afterwards find no buffer and "
+                     "are dropped by the data handler while the mode is still Sync — the next receiveSync misses them" % (short(f.name), known),
                      okdesc="%s: erase only of a closed buffer" % short(f.name))
             r.instance()
-            r.expect(empty, f, e, "undrained receive buffer erased", "%s removes a receiveBuffers entry without having seen it empty (known: %s): bytes that arrived before the close and were not yet returned / flushed "
-                     "are destroyed — the reader gets PeerClosed (or the data callback nothing) without them" % (short(f.name), "; ".join(("" if t else "!") + show(c)[:40] for c, t in facts[-4:]) or "nothing"),
+            r.expect(empty, f, e0, "undrained receive buffer erased", "%s removes a receiveBuffers entry without having seen it empty (known: %s): bytes that arrived before the close and were not yet returned / flushed "
+                     "are destroyed — the reader gets PeerClosed (or the data callback nothing) without them" % (short(f.name), known),
                      okdesc="%s: erase only of a drained buffer" % short(f.name))
     if n < 2:
         raise AnalysisBroken("receiveBuffers erase sites: %d found, expected >= 2" % n)
